@@ -1,0 +1,35 @@
+//go:build verif
+
+// Verification contracts for package schemaClient (comment-only; compiled only with -tags verif).
+// Read by /verif/cmd/gvc; see /verif/DESIGN.md for the contract language.
+
+package schemaClient
+
+//@ event SchemaQuery()
+
+// assumed: one query to the schema server per call; a successful reply is non-nil
+//@ iface (schema.Client).GetSchema
+//@   noeffect
+//@   emits SchemaQuery()
+//@   ensures r1 == nil ==> r0 != nil
+
+// assumed sequential model of sync.Map.LoadOrStore: either the given value was stored and is returned, or a value
+// stored earlier is returned (never the argument itself: at the only call site the argument is a newly allocated
+// entry); the index holds values of one dynamic type only (Retrieve is its only writer)
+//@ extern (*sync.Map).LoadOrStore
+//@   params key value
+//@   noeffect
+//@   ensures stores_when_absent: !r1 ==> r0 == value
+//@   ensures loaded_is_an_earlier_entry: r1 ==> r0 != value
+//@   ensures homogeneous: kind(r0) == kind(value) && (r0 != nil ==> dyn(r0, *schemaIndexEntry) != nil)
+
+// C07: a transient failure of the schema service is not memoised: the next request for the path asks again
+//@ func (*SchemaClientBoundImpl).Retrieve
+//@   props C07
+//@   requires scb != nil && scb.schema != nil && scb.schemaClient != nil
+//@   let n0 = ntrace()
+//@   internal errors_not_memoised: called(LoadOrStore) && r1 != nil && ntrace() > n0 ==> !dyn(callres(LoadOrStore, 0, 0), *schemaIndexEntry).ready
+//@   internal success_memoised: called(LoadOrStore) && r1 == nil && ntrace() > n0 ==> dyn(callres(LoadOrStore, 0, 0), *schemaIndexEntry).ready &&
+//@            dyn(callres(LoadOrStore, 0, 0), *schemaIndexEntry).schemaRsp == r0
+//@   internal memo_hit_asks_nobody: called(LoadOrStore) && callres(LoadOrStore, 0, 1) && old(dyn(callres(LoadOrStore, 0, 0), *schemaIndexEntry).ready) ==> ntrace() == n0
+//@   ensures at_most_one_query: ntrace() <= n0 + 1
